@@ -156,6 +156,8 @@ class World:
         self.tol_dtype = np.float16 if "f2" in dts else (np.float32 if "f4" in dts else np.float64)
         self.need_discovery = any(getattr(o, "needs_ops", False) for o in self.obs)
         self.last_backward = None
+        self.checkpoints = []
+        self.failed_events = []  # id(ev) of statements that raised (expected or not)
         self.files = {}
         self._tmpdir = None
         for o in self.obs:
@@ -276,6 +278,8 @@ class World:
         if out is None:
             out = Outcome("ok")
         self.trace.append((k, out.cls()))
+        if out.status in ("fail", "unexp") and k != "write":
+            self.failed_events.append(id(ev))
         self.count("ev." + k)
         self.count("out." + out.status)
         if out.status == "unexp":
@@ -1026,6 +1030,8 @@ class World:
             rec["status"] = "nofail"
             return Outcome("nofail")
         rec["status"] = "ok"
+        if self.cfg.get("checkpoints"):
+            self._checkpoint(rec)
         if live:
             self._model_clear(h)
         return Outcome("ok")
@@ -1059,6 +1065,15 @@ class World:
         for k, i in self.info.items():
             if i.nid in sev:
                 i.stale = True
+
+    def _checkpoint(self, rec):
+        cp = {}
+        for k, t in self.T.items():
+            g = t.grad
+            ga = None if g is None else np.asarray(g)
+            cp[k] = (t.data.tobytes(), str(t.dtype), t.shape, None if ga is None else (ga.tobytes(), str(ga.dtype), ga.shape), bool(t.constant))
+            del g
+        self.checkpoints.append({"step": self.nstep, "tgt": rec["h"], "state": cp, "reach": set(rec.get("reach_handles") or []), "judged": rec.get("expected") is not None and not rec.get("tainted")})
 
     def _expect_grads(self, rec):
         """M2 expectation for every caller-held handle, computed on the state before the call:
